@@ -50,6 +50,27 @@ def _tuple_consts(node):
     return None
 
 
+def _membership(test):
+    """Constants c1..cn of `status in (c1, .., cn)`, `status == c` or an `or`
+    of such tests; None when the test has another shape."""
+    c = _cmp(test, ast.In)
+    if c and _is_status(c[0]):
+        return _tuple_consts(c[1])
+    c = _cmp(test, ast.Eq)
+    if c and _is_status(c[0]):
+        v = _const(c[1])
+        return None if v is None else [v]
+    if isinstance(test, ast.BoolOp) and isinstance(test.op, ast.Or):
+        out = []
+        for t in test.values:
+            m = _membership(t)
+            if m is None:
+                return None
+            out += m
+        return out
+    return None
+
+
 def _find_func(tree, cls, name):
     for n in tree.body:
         if isinstance(n, ast.ClassDef) and n.name == cls:
@@ -100,9 +121,8 @@ def extract(path):
                     and len(s.body[0].targets) == 1 and _is_status(s.body[0].targets[0]) and not s.orelse:
                 res["default"] = _const(s.body[0].value)
                 continue
-            c = _cmp(s.test, ast.In)
-            if c and _is_status(c[0]):
-                vals = _tuple_consts(c[1])
+            vals = _membership(s.test)
+            if vals is not None:
                 has_bare_return = any(isinstance(x, ast.Return) and x.value is None for x in s.body)
                 has_parse = any(isinstance(x, ast.Assign) and isinstance(x.value, ast.Call)
                                 and isinstance(x.value.func, ast.Name) and x.value.func.id == "_parse"
